@@ -143,11 +143,6 @@ func check(raw json.RawMessage) fw.Result {
 		return fw.Result{Verdict: fw.Inconclusive, Msg: err.Error()}
 	}
 	var res fw.Result
-	if in.Skip != "" {
-		res.Verdict = fw.Skip
-		res.Count("skipped_"+in.Skip, 1)
-		return res
-	}
 	fl := buildFlow(&in)
 	n := len(fl.units)
 	if n == 0 {
@@ -427,6 +422,9 @@ func check(raw json.RawMessage) fw.Result {
 			}
 		case "forced":
 			res.Count("ends_forced", 1)
+			if a, b := fl.blocks[fl.units[last[i]].blk].name, fl.blocks[fl.units[last[i]+1].blk].name; a != "" && b == "" {
+				res.Count("ends_forced_named_to_unnamed", 1)
+			}
 			_, sides := fl.forcedAt(last[i])
 			want := []int{0}
 			nextSide := opposite(facts[i].Side)
